@@ -1,1 +1,52 @@
-fn main(){}
+//! lzmc — bounded-exhaustive model checking harness for gendx/lzma-rs (see /verif/DESIGN.md).
+mod cases;
+mod common;
+mod explore;
+mod props;
+mod refmodel;
+
+use common::Tier;
+
+#[global_allocator]
+static ALLOC: common::CountingAlloc = common::CountingAlloc;
+
+fn usage() -> ! {
+    eprintln!("usage: lzmc <C01..C18> quick|thorough | lzmc replay <file> | lzmc bind");
+    std::process::exit(2)
+}
+
+fn main() {
+    // keep panic output of the code under test out of the logs (panics are caught and judged)
+    std::panic::set_hook(Box::new(|_| {}));
+    let args: Vec<String> = std::env::args().collect();
+    if args.len() < 2 {
+        usage();
+    }
+    match args[1].as_str() {
+        "replay" => {
+            if args.len() < 3 {
+                usage();
+            }
+            std::process::exit(props::replay(&args[2]));
+        }
+        "bind" => {
+            common::start_watchdog();
+            std::process::exit(props::bind::run());
+        }
+        id => {
+            let tier = match args.get(2).map(|s| s.as_str()) {
+                Some("quick") | None => Tier::Quick,
+                Some("thorough") => Tier::Thorough,
+                _ => usage(),
+            };
+            let threads = std::env::var("VERIF_THREADS").ok().and_then(|s| s.parse::<usize>().ok()).unwrap_or(16);
+            rayon::ThreadPoolBuilder::new().num_threads(threads).stack_size(16 << 20).build_global().ok();
+            common::start_watchdog();
+            let code = match props::run(id, tier) {
+                Some(c) => c,
+                None => usage(),
+            };
+            std::process::exit(code);
+        }
+    }
+}
